@@ -63,3 +63,32 @@ Definition spec_rows (n nlines : nat) (file : N) (ems : list emission) : list ro
 (* what a row shows: (address, byte) pairs *)
 Definition row_cells (r : row) : list cell :=
   match r_addr r with Some a => cells_from a (r_bytes r) | None => [] end.
+
+(* ------------------------------------------------------------------ well-formed emission
+   The source map as the emitter leaves it: every entry, paired with the bytes its statement emitted, records the target
+   address range of exactly those bytes, and the segment it names holds them at the corresponding emit addresses
+   (target address - target_offset).  Proved of the emission model in props/C11.v (C11_wf_emission). *)
+Definition slice (data : list N) (start len : nat) : list N := firstn len (skipn start data).
+
+Definition entry_ok (segs : segments) (o : offset) (bs : list N) : Prop :=
+  o_pc1 o = o_pc0 o + Z.of_nat (length bs) /\
+  (bs <> [] -> exists seg, get_segment segs (o_segment o) = Some seg /\
+     ls_lo seg <= o_pc0 o - ls_toff seg /\ o_pc1 o - ls_toff seg <= ls_hi seg /\
+     slice (ls_data seg) (Z.to_nat (o_pc0 o - ls_toff seg - ls_lo seg)) (length bs) = bs).
+
+Definition wf_emission (segs : segments) (es : list (offset * list N)) : Prop :=
+  Forall (fun e => entry_ok segs (fst e) (snd e)) es.
+
+(* the span lies within a file of the code map *)
+Definition span_ok (cm : code_map) (s : span) : Prop :=
+  exists f, find_file cm (sp_file s) = Ok f /\ 0 <= sp_lo s <= file_len f /\ 0 <= sp_hi s <= file_len f.
+Definition spans_ok (cm : code_map) (es : list (offset * list N)) : Prop :=
+  Forall (fun e => span_ok cm (o_span (fst e))) es.
+
+Definition src_of (cm : code_map) (name : N) : list N := match find_file cm name with Ok f => f_src f | Panic => [] end.
+
+(* what an entry means: its statement (file, line on which its span begins) emitted these bytes from this address on *)
+Definition emission_of (cm : code_map) (e : offset * list N) : emission :=
+  let s := o_span (fst e) in
+  mkEm (sp_file s) (spec_line (src_of cm (sp_file s)) (sp_lo s)) (o_pc0 (fst e)) (snd e).
+Definition emissions (cm : code_map) (es : list (offset * list N)) : list emission := map (emission_of cm) es.
